@@ -343,3 +343,7 @@ package httpserver
 //@ func ParseRoller
 //@ func DefaultLogRoller
 //@   ensures result != nil
+
+//@ unit peer_input_sweep props=C19 files=replacer.go,mitm.go,path.go nilchecks=on nonnil_params=on exclude=`rawHelloInfo\)\.|parseRawClientHello$|clientHelloConn\)\.Read$|replacer\)\.Replace$|assertPresenceAndOrdering$|hasGreaseCiphers$|Path\)\.Matches$` filter=`.`
+//@ // everything else in the files that handle peer-controlled bytes (placeholders, User-Agent heuristics, path helpers): safety sweep
+//@ use @verif/specs/stdlib.spec:stdlib
